@@ -936,3 +936,30 @@ Proof.
   pose proof (infer_no_raise c) as Hc. rewrite IH.
   destruct (infer_series_stype c) as [[s|]|]; simpl; auto; congruence.
 Qed.
+
+(* ------------------------------------------------------------------ corollaries stated in Props/C18.v *)
+Lemma table_string_spec col :
+  forallb (fun c => is_strlike c || is_missing c) col = true ->
+  existsb is_str_cell col = true ->
+  infer_series_stype col = Inferred (Some (string_table_spec (dropna col))).
+Proof.
+  intros H S. rewrite (table_string col H S). unfold string_table_spec.
+  now rewrite multicat_test_is_spec.
+Qed.
+
+Lemma min_count_least ser :
+  ser <> [] ->
+  (exists x, In x ser /\ min_count ser = count_by cell_eqb x ser) /\
+  (forall x, In x ser -> min_count ser <= count_by cell_eqb x ser).
+Proof.
+  intros H. split.
+  - exact (min_count_by_witness cell_eqb ser H).
+  - intros x. exact (min_count_by_le cell_eqb ser x).
+Qed.
+
+Lemma no_date_cells_robust ser :
+  (forall x, In x ser -> is_datestr x = false) -> ser <> [] -> date_robust ser.
+Proof.
+  intros H Hne. destruct ser as [|x r]; [congruence|].
+  exact (non_date_cell_robust (x :: r) x (or_introl eq_refl) (H x (or_introl eq_refl))).
+Qed.
